@@ -203,3 +203,17 @@ pub fn san_from_move<S: Src, const SIDE: u8, const KG: u8, const K: u32>(s: &mut
     vcover!("gives check", chk);
     vcover!("mate mark", chk && !h);
 }
+
+/// `Data::Simple` naming a pawn is refused with an error on a concrete position, for every other field value
+pub fn san_simple_pawn_refused<S: Src>(s: &mut S) {
+    let b = owlchess::Board::initial();
+    let file = if s.bool() { Some(File::from_index(s.below(8) as usize)) } else { None };
+    let rank = if s.bool() { Some(Rank::from_index(s.below(8) as usize)) } else { None };
+    let d = Data::Simple { piece: Piece::Pawn, file, rank, is_capture: s.bool(), dst: Coord::from_index(s.below(64) as usize) };
+    let r = d.into_move(&b);
+    vassert!("a SAN piece-move value naming a pawn is refused with an error (no panic)", r.is_err());
+    let mut bc = b.clone();
+    let rr = owlchess::Make::make_raw(&san::Move { data: d, check: None }, &mut bc);
+    vassert!("... also through the Make entry point, leaving the position unchanged", rr.is_err() && crate::c03::same_board(&bc, &b));
+    vcover!("with origin hints", file.is_some() && rank.is_some());
+}
